@@ -63,7 +63,11 @@ def run(h, img, noise, bkgmap=None, **kw):
             rows = SourceFinder(log=log).find_sources_in_image(path, rms=noise, bkg=0.0, cores=1, **kw)
     finally:
         shutil.rmtree(tmp, ignore_errors=True)
+    LAST_ISLANDS[:] = [r for r in rows if not isinstance(r, ComponentSource)]
     return [r for r in rows if isinstance(r, ComponentSource)]
+
+
+LAST_ISLANDS = []
 
 
 def key(r):
@@ -78,8 +82,20 @@ def mirror_failures(seed, mixed=False, withbkg=False):
         a = run(h, img + bk, noise, bkgmap=bk)
         b = run(h, -(img + bk), noise, bkgmap=-bk)
     else:
-        a = run(h, img, noise)
-        b = run(h, -img, noise)
+        a = run(h, img, noise, doislandflux=True)
+        ia = list(LAST_ISLANDS)
+        b = run(h, -img, noise, doislandflux=True)
+        ib = list(LAST_ISLANDS)
+        if not mixed:
+            # island rows: same islands, same position / extent / pixel count, fluxes negated
+            if len(ia) != len(ib):
+                return [("island_rows_mirror", "%d island rows for the image, %d for its negation" % (len(ia), len(ib)))]
+            for x, y in zip(sorted(ia, key=lambda r: r.island), sorted(ib, key=lambda r: r.island)):
+                if abs(x.ra - y.ra) > 1e-9 or abs(x.dec - y.dec) > 1e-9 or list(x.extent) != list(y.extent) or x.pixels != y.pixels \
+                        or not np.isclose(y.peak_flux, -x.peak_flux, rtol=1e-6) or not np.isclose(y.int_flux, -x.int_flux, rtol=1e-6, atol=1e-9) \
+                        or x.components != y.components:
+                    return [("island_rows_mirror", "island %s: (ra, dec, peak, int, pixels, extent) = (%r, %r, %r, %r, %r, %r) becomes (%r, %r, %r, %r, %r, %r)" % (
+                        x.island, x.ra, x.dec, x.peak_flux, x.int_flux, x.pixels, x.extent, y.ra, y.dec, y.peak_flux, y.int_flux, y.pixels, y.extent))]
     out = []
     lab = "polarity_class.negated_island_is_classified_opposite" if mixed else None
     if len(a) != len(b):
